@@ -40,6 +40,8 @@ def declare_loops(spec):
                                "forall_in(as_list(self.next_individual, 'Any'), lambda x: finish_cand_ok(self, x))"],
             "renege": ["is_list(self.next_individual) and len(as_list(self.next_individual, 'Any')) > 0 and "
                        "forall_in(as_list(self.next_individual, 'Any'), lambda x: renege_cand_ok(self, x))"],
+            "change_customer_class_while_waiting": ["self.dynamic_classes is True", "not isinf(self.c) and has(self, 'servers')",
+                                                    "cc_cand_ok(self, self.next_individual)"],
             "have_event": ["arr_ok(self)", "self.simulation.inter_arrival_times[self.next_node][self.next_class] is not None",
                            "is_time(self.event_dates_dict[self.next_node][self.next_class]) and (is_fin(self.event_dates_dict[self.next_node][self.next_class]) "
                            "or is_pinf(self.event_dates_dict[self.next_node][self.next_class]))"],
